@@ -74,6 +74,14 @@ fn gen_conn(rng: &mut Prng, focus: Focus, server_role: bool, body_hint: usize, c
         c.changes.push(SettingsChange { when, settings: s });
     }
     if rng.below(4) == 0 { c.conn_window_bonus = *rng.pick(&[1000u32, 65535, 1_000_000]); }
+    // a threshold above the stream window we advertise would never be reached: the update would only come from the
+    // fallback timer, tens of virtual milliseconds per window, and a large body would look starved by sozu
+    let iws = c.settings.initial_window_size.unwrap_or(65535);
+    if let WuMode::Threshold(t) | WuMode::Drip(t) = c.wu.stream { if t >= iws { c.wu.stream = WuMode::WhenExhausted; } }
+    // sozu documents a flood detector for stream-0 WINDOW_UPDATE frames (100 per window): megabytes through a 64 kB
+    // connection window would need more than that within one window of (fast) virtual time. A well-behaved peer
+    // moving that much grants the connection window once, up front.
+    if body_hint > 1_000_000 { c.conn_window_bonus = (body_hint as u64 * 2).min(0x7fff_ffff - 65535 - 1_000_000) as u32; c.wu.conn = WuMode::WhenExhausted; }
     c.hpack = HpackStyle { repr: *rng.pick(&[Repr::NoIndex, Repr::NeverIndex, Repr::IncrIndex]), incr_every: rng.below(4) as u32, static_names: rng.below(2) == 0, static_full: rng.below(2) == 0, huffman: rng.below(2) == 0, dynamic_refs: rng.below(2) == 0, table_size: None };
     c.batch = 1 + rng.below(3) as u32;
     c
